@@ -2,7 +2,7 @@
    enclosures whose [true] is proved (Theory/CertT.v) to imply a statement about every point
    of a continuum. *)
 From Coq Require Import ZArith QArith Qabs List Bool.
-From PyqspV Require Import Base.Ops Base.IntervalZ Base.TrigZ Model.LPolyM Model.LAlgM Model.QInst Model.ConvM Model.ResponseM.
+From PyqspV Require Import Base.Ops Base.IntervalZ Base.TrigZ Model.LPolyM Model.LAlgM Model.QInst Model.ConvM Model.ResponseM Model.SymQspM.
 Import ListNotations.
 
 Fixpoint qlist_eqb_exact (a b : list Q) : bool :=
@@ -211,3 +211,65 @@ Definition check_p2l (p l : list Q) : bool :=
   match target_F p with Some F => lp_same F (mk OpsQ l (- len l + 1)) | None => false end.
 (* instance certificate for poly2cheb: converting back with the (proved) cheb2poly gives p *)
 Definition check_p2c (kindU : bool) (p : list Q) : bool := qlist_eqb_exact (c2p_q kindU (p2c_q kindU p)) p.
+
+(* ---- C12 / C13: symmetric QSP *)
+Definition sym_full_q (odd : bool) (red : list Q) : option (list Q) := sym_full OpsQ odd red.
+
+(* the Laurent polynomial  sum_j f_j (w^m_j + w^-m_j)/2,  m_j = 2j + parity  (= sum_j f_j T_{m_j}(a)) *)
+Definition cheb_to_laurent (odd : bool) (f : list Q) : lpoly Q :=
+  let h := map (Qmult qhalf1) f in
+  if odd then mk OpsQ (rev h ++ h) (- (2 * len f - 1))
+  else match h, f with
+       | _ :: ht, f0 :: _ => mk OpsQ (rev ht ++ [f0] ++ ht) (- (2 * len f - 2))
+       | _, _ => mk OpsQ [] 0
+       end.
+
+(* Jacobian routine, value part: f_j = Chebyshev coefficient (index 2j+parity) of Im <0|U|0>,
+   i.e. of sum_k B_k T_|k|(a) with B the X part of the element of the full phases; all other
+   Chebyshev coefficients of that imaginary part vanish.  Coefficient-wise certificate. *)
+Definition jac_f_diff (odd : bool) (red f : list Q) : option (lpoly I) :=
+  do full <- sym_full_q odd red;
+  do g <- resp_elem full;
+  corner_diff OpsI (iofQ qhalf1) (la_X g) (lpQ2I (cheb_to_laurent odd f)).
+Definition check_jac_f (odd : bool) (red f : list Q) (tol : Q) : bool :=
+  Nat.eqb (length red) (length f) &&
+  match jac_f_diff odd red f with Some d => all_ub_le (lp_coefs d) (Qmult qhalf1 tol) | None => false end.
+
+(* dual numbers over intervals: (value, derivative) *)
+Definition DI : Type := (I * I)%type.
+Definition OpsDI : Ops DI :=
+  mkOps DI (izero, izero) (ione, izero)
+    (fun a b => (iadd (fst a) (fst b), iadd (snd a) (snd b)))
+    (fun a b => (isub (fst a) (fst b), isub (snd a) (snd b)))
+    (fun a b => (imul (fst a) (fst b), iadd (imul (snd a) (fst b)) (imul (fst a) (snd b))))
+    (fun a => (ineg (fst a), ineg (snd a))).
+(* (cos, sin) of a phase that depends on the parameter with integer slope m *)
+Definition dual_cs (phi : Q) (m : nat) : DI * DI :=
+  let cs := cos_sin_encl phi in
+  let mi := iofZ (Z.of_nat m) in
+  ((fst cs, ineg (imul mi (snd cs))), (snd cs, imul mi (fst cs))).
+Definition jac_elem_dual (odd : bool) (red : list Q) (k : nat) : option (lalg DI) :=
+  do full <- sym_full_q odd red;
+  la_from_angles OpsDI (map (fun pm => dual_cs (fst pm) (snd pm)) (combine full (sym_full_weights odd (length red) k))).
+(* enclosures of d f_j / d red_k for j = 0 .. n-1 *)
+Definition jac_df_col (odd : bool) (red : list Q) (k : nat) : option (list I) :=
+  do g <- jac_elem_dual odd red k;
+  do s <- lp_add OpsDI (la_X g) (lp_inv OpsDI (la_X g));
+  Some (map (fun j => let m := (2 * Z.of_nat j + (if odd then 1 else 0))%Z in
+                      let c := snd (lp_get OpsDI s m) in
+                      if (m =? 0)%Z then idivZ c 2 else c)
+            (seq 0 (length red))).
+Definition check_jac_df_col (odd : bool) (red : list Q) (k : nat) (col : list Q) (tol : Q) : bool :=
+  match jac_df_col odd red k with
+  | Some encl => Nat.eqb (length encl) (length col) &&
+                 forallb (fun ic => scaled_le_q (iabs_ub (isub (fst ic) (iofQ (snd ic)))) tol) (combine encl col)
+  | None => false
+  end.
+
+(* C13: the imaginary part of the Wx response of the protocol equals the target Chebyshev series
+   sum_j c_j T_{2j+parity} within tol on all of [-1,1] (1-norm certificate) *)
+Definition check_im_target (odd : bool) (red c : list Q) (tol : Q) : bool :=
+  Nat.eqb (length red) (length c) &&
+  match jac_f_diff odd red c with Some d => scaled_le_q (sum_ub (lp_coefs d)) tol | None => false end.
+Definition im_target_norm (odd : bool) (red c : list Q) : option Z :=
+  match jac_f_diff odd red c with Some d => Some (sum_ub (lp_coefs d)) | None => None end.
